@@ -265,7 +265,11 @@ class XPathNode:
         if self.children:
             for c in self.children:
                 if isinstance(child, ElementNode):
-                    if c.name == child.name:
+                    # positions are relative to the name test of the path step
+                    if c.name == child.name and isinstance(c, ElementNode):
+                        pos += 1
+                elif isinstance(child, ProcessingInstructionNode):
+                    if c.name == child.name and isinstance(c, ProcessingInstructionNode):
                         pos += 1
                 elif isinstance(c, child.__class__):
                     pos += 1
